@@ -9,7 +9,7 @@
 (* disagreement; "not accepted" (the log is not consumed to its end) can   *)
 (* only mean a malformed log or a specification bug.                       *)
 (***************************************************************************)
-EXTENDS Integers, Sequences, TLC, Json, J_Prims, J_Build
+EXTENDS Integers, Sequences, TLC, Json, J_Prims, J_Build, J_Tables, J_C07, J_C15
 
 CONSTANT TraceFile
 Log == ndJsonDeserialize(TraceFile)
@@ -24,6 +24,10 @@ Judge(e) ==
   ELSE CASE e.op \in PrimOps -> JPrims(e)
          [] e.op = "Read" -> JRead(e) \o JAccOne(e.fn, e["in"], e.r, e) \o JAcc2One(e.fn, e["in"], e.r, e)
          [] e.op = "Twins" -> JTwinsWith(e, JAcc2One)
+         [] e.op = "Tables" -> JTables(e)
+         [] e.op = "IdentityPair" -> JIdentityPair(e)
+         [] e.op = "Extrema" -> JExtrema(e)
+         [] e.op = "ExpiryProbe" -> JExpiryProbe(e)
          [] e.op = "Build" -> JBuild(e)
          [] e.op = "BuildMapping" -> JBuildMapping(e)
          [] e.op = "Sweep" -> JSweep(e)
